@@ -4,10 +4,10 @@ import Liquid.Render
 
 `GoVal.norm` forgets the representation choices that C18 declares irrelevant, at every depth:
 
-* a drop (`.drop v`) is the value it yields — unless that value is again a drop, a pointer to a
-  drop, or the renderer's own `forloop` record (`dropRigid`; see the counterexamples in
-  `Proofs/C18.lean`: `ToLiquid` is applied once, so a drop that yields a drop is *not* its final
-  value when it sits inside a container);
+* with `d = true`, a drop (`.drop v`) is the value it yields — unless that value is the renderer's
+  own `forloop` record (`dropRigid`), which no binding can hold; with `d = false` drops inside
+  containers are kept (the standard comparison, printing and filters apply `ToLiquid` once or not
+  at all there: see the counterexamples in `Proofs/C18.lean`);
 * a typed slice and a fixed array are the generic slice with the same (normalised) elements;
 * a typed map is the generic map with the same key type, the same keys and normalised values.
 
@@ -22,11 +22,9 @@ open GoVal
     `cycleCounters` map): no binding can have this shape -/
 def isRec (v : GoVal) : Bool := (cyclesOf v).isSome
 
-/-- a drop around `v` is kept as it is: `ToLiquid` (one level) of it is not a final value -/
-def dropRigid : GoVal → Bool
-  | .drop _ => true
-  | .ptr (.drop _) => true
-  | v => isRec v
+/-- a drop around `v` is kept as it is: only the renderer's own record (whose place is recognised
+    by its Go type) -/
+def dropRigid (v : GoVal) : Bool := isRec v
 
 mutual
 /-- the normal form; `d`: also resolve drops nested in containers (`d = false` keeps every drop) -/
